@@ -420,6 +420,21 @@ func checkC06(c *Ctx, r *Report) {
 			}
 		})
 	}
+	for _, f := range c.FuncsNamed("(*" + headersPkg + ".HeaderDirectives).StripRegularConditionals") {
+		for _, fld := range []string{"IfMatch", "IfModifiedSince", "IfNoneMatch", "IfUnmodifiedSince"} {
+			fld := fld
+			marker := func(in ssa.Instruction) bool {
+				x, ok := in.(*ssa.Call)
+				if !ok || !strings.HasSuffix(calleeName(x), ".Header).SyncRemove") {
+					return false
+				}
+				_, p := fieldPath(callArgs(x)[0])
+				return len(p) > 0 && p[len(p)-1] == fld
+			}
+			ex := exitsFromEntryAvoiding(f, marker, nil)
+			r.Check(len(ex) == 0, "C06.R2", "StripRegularConditionals removes "+fld+" on every path", c.Pos(f.Pos()), "no return before the removal", "StripRegularConditionals can return without removing "+fld+" (conditional strip): the client's validator reaches the origin and its 304 is taken for the proxy's own revalidation")
+		}
+	}
 	sort.Strings(stripped)
 	want := []string{"IfMatch", "IfModifiedSince", "IfNoneMatch", "IfUnmodifiedSince"}
 	r.Check(strings.Join(stripped, ",") == strings.Join(want, ","), "C06.R2", "the remover covers the four regular conditionals", "-", strings.Join(stripped, ","), "StripRegularConditionals removes "+strings.Join(stripped, ",")+" instead of "+strings.Join(want, ","))
